@@ -425,6 +425,9 @@ def _gen_storage_program(rng, tier):
         ops.append({"op": "corrupt", "user": rng.randrange(len(users)), "kind": rng.choice(kinds), "pos": rng.randint(0, 130),
                     "byte": rng.choice(SUBST), "as_bytes": rng.random() < 0.2, "other": rng.randrange(len(users)),
                     "cumulative": rng.random() < 0.15})
+        if ops[-1]["kind"] == "truncate" and rng.random() < 0.4:
+            # a tail torn off at a field / segment boundary (the cut a length-limited column or a fixed-size record makes)
+            ops[-1]["pos"] = 1000 + rng.randint(0, 40)
     cold = rng.random() < 0.3
     return {"cfg": {"mode": "storage", "schemes": schemes, "tail": tail, "users": users, "seed": rng.getrandbits(32), "cold": cold}, "ops": ops}
 
@@ -935,6 +938,9 @@ def damage(h, kind, pos, byte, other):
         j = pos % (n + 1)
         return h[:j] + byte + h[j:]
     if kind == "truncate":
+        if pos >= 1000:
+            cuts = sorted({j + 1 for j, ch in enumerate(h) if ch in "$,=|:}"} | {2, 13, n - 1, n - 11, n - 22, n - 32} & set(range(1, n)))
+            return h[: cuts[(pos - 1000) % len(cuts)]] if cuts else h
         return h[: pos % (n + 1)]
     if kind == "empty":
         return ""
